@@ -17,6 +17,7 @@ exhausted (raise) -/
 inductive Outcome (S : Type) where
   | done (s : S)
   | raised (s : S)
+  deriving DecidableEq
 
 /-- the block either raised or ended in `target` -/
 def Outcome.raisedOrEq {S : Type} (o : Outcome S) (target : S) : Prop :=
@@ -103,5 +104,77 @@ theorem C19_write_restartable (path : Nat) (content : Option Nat) (s₀ : St) (j
   apply List.filter_congr
   intro e _
   simp
+
+/-! ### a whole run: retried blocks in sequence, the first exhausted budget aborts the run -/
+
+/-- one retried block of the run together with what the fault schedule does to it: the states its failed attempts leave and
+whether an attempt finally runs through -/
+structure Step (S : Type) where
+  f : S → S
+  failed : List (S → S)
+  succeeds : Bool
+
+/-- the block is restartable from wherever it is started: every state a failed attempt can leave still leads to the same end -/
+def Step.Restartable {S : Type} (st : Step S) : Prop :=
+  ∀ leave ∈ st.failed, ∀ s₀ s, st.f s = st.f s₀ → st.f (leave s) = st.f s₀
+
+/-- run the blocks in order; a block whose budget is exhausted raises and nothing after it is executed -/
+def runSteps {S : Type} : List (Step S) → S → Outcome S
+  | [], s => .done s
+  | st :: rest, s =>
+    match retryRun st.f st.failed st.succeeds s with
+    | .done s' => runSteps rest s'
+    | .raised s' => .raised s'
+
+/-- **the whole run**: if every block is restartable then, whatever the fault schedule does (any number of failed attempts in any
+block, any budget exhausted), the run either raises or ends exactly where the fault-free run ends -/
+theorem C19_run_of_blocks {S : Type} (steps : List (Step S)) (s₀ : S) (hr : ∀ st ∈ steps, st.Restartable) :
+    (runSteps steps s₀).raisedOrEq (steps.foldl (fun s st => st.f s) s₀) := by
+  induction steps generalizing s₀ with
+  | nil => simp [runSteps, Outcome.raisedOrEq]
+  | cons st rest ih =>
+    have hb := C19_retry_block st.f s₀ st.failed st.succeeds (fun leave hl s hs => hr st (by simp) leave hl s₀ s hs)
+    simp only [runSteps, List.foldl_cons]
+    cases hrun : retryRun st.f st.failed st.succeeds s₀ with
+    | raised s' => simp [Outcome.raisedOrEq]
+    | done s' =>
+      rw [hrun] at hb
+      simp only [Outcome.raisedOrEq] at hb
+      simp only
+      rw [hb]
+      exact ih (st.f s₀) (fun x hx => hr x (by simp [hx]))
+
+/-- the guarded move and the (over)writing / removal of a path are restartable blocks, for every fault schedule -/
+theorem C19_blocks_restartable (m : Nat × Nat) (h : m.1 ≠ m.2) (path : Nat) (content : Option Nat) (moved : List Bool)
+    (junk : List (Option Nat)) (b₁ b₂ : Bool) :
+    (Step.mk (fun s : St => applyMove s m) (moved.map (fun mv => if mv then (fun s => applyMove s m) else id)) b₁).Restartable ∧
+    (Step.mk (putFile path content) (junk.map (fun j => putFile path j)) b₂).Restartable := by
+  constructor
+  · intro leave hl s₀ s hs
+    simp only [List.mem_map] at hl
+    obtain ⟨b, _, rfl⟩ := hl
+    cases b with
+    | false => simpa using hs
+    | true => simp only [if_true]; rw [C19_move_idempotent s m h]; exact hs
+  · intro leave hl s₀ s hs
+    simp only [List.mem_map] at hl
+    obtain ⟨j, _, rfl⟩ := hl
+    simp only at hs ⊢
+    rw [← hs]
+    unfold putFile
+    congr 1
+    rw [List.filter_append, List.filter_filter]
+    have : (match j with | some c => [(path, c)] | none => ([] : St)).filter (fun (e : Nat × Nat) => e.1 != path) = [] := by
+      cases j <;> simp
+    rw [this, List.append_nil]
+    apply List.filter_congr
+    intro e _
+    simp
+
+/-! non-vacuity: two blocks (write part 1, move 2 → 0), the first attempt of the write leaves a truncated file, the move is
+interrupted after it took effect: the run ends in the fault-free state -/
+example : runSteps [Step.mk (putFile 1 (some 7)) [putFile 1 (some 0)] true,
+                    Step.mk (fun s : St => applyMove s (2, 0)) [fun s => applyMove s (2, 0)] true] [(2, 5)]
+          = .done [(0, 5), (1, 7)] := by decide
 
 end SpVerif
